@@ -19,6 +19,9 @@ ASSUMPTIONS = [
 
 def judge(case, rows, stats, res):
     for i, (inp, row) in enumerate(zip(case["reactions"], rows)):
+        if not pp.valid_input(inp):
+            res.tag("malformed-sibling-row")
+            continue
         pp.c03_row(res, i, inp, row)
         res.tag(*[c for c in pp.row_classes(inp, row) if c.startswith(("solved", "declined"))])
         sp = oracle.split_reaction(inp)
